@@ -7,8 +7,11 @@ The history quantifier collapses to static facts decided per method (for all his
              fit* / minimize_variance write their result fields only when they run on the registered targets (B is None) and
              nothing when targets are passed explicitly; every other method (queries, properties, aliases, helpers, plots) has
              an empty write set — no cached hulls or transformed matrices
+             a registration never computes what it stores from the value it replaces (outside the documented add=True modes)
   R-NOFLOW   the derived stored fields (A, Epsilon, sources_domain) do not depend on K, baseline, bounds or targets
-  R-PURITY   no in-place write reaches a caller array or a stored field; no module-level mutable state; no global RNG
+  R-PURITY   no in-place write reaches a caller array or a stored field (also under the non-default query options
+             normalized=True, explicit neutral point, l1=, relative=False; a helper reached with a fresh array on one path and
+             with the caller's array on another is judged for each); no module-level mutable state; no global RNG
   R-FORWARD  (in C03/C04/C06/C12/C13) queries read K, baseline, lb, ub, A, W from self at call time
 Scope notes: fit(model=<callable>) (JAX path, JAX absent) is excluded; register_uncertainty is outside the property's alphabet
 (it makes Epsilon history dependent — advisory); plot methods mutate caller-supplied dict kwargs (advisory: the property speaks
